@@ -4,6 +4,7 @@
 -/
 import FileD.Lemmas.Pool
 import FileD.Lemmas.PoolStd
+import FileD.Lemmas.Life
 namespace FileD.PropsC05
 open FileD FileD.Pool
 
@@ -184,5 +185,42 @@ theorem slot_exclusive (cap n : Nat) (s : Std.St) (h : TS.Reachable Std.step? (S
 example : ∃ s, TS.Reachable Std.step? (Std.init 2 2) s ∧
     s.pcs = [.holding 0, .taken 1] ∧ (s.slots.map (fun sl => (sl.f1, sl.f2))) = [(false, false), (false, true)] :=
   ⟨_, ⟨[.start 0, .tkt 0, .cas 0, .take 0, .iInc 0, .start 1, .tkt 1, .cas 1], rfl⟩, by decide⟩
+
+/-! ## event life cycle after eventPool.get (Pipeline.In … Pipeline.finalize) -/
+
+/-- **finalize_once**: along every run of the life-cycle model (every interleaving of the events'
+    steps: decode error, refusal, streaming, discard / collapse, hold + propagate, output commit,
+    finalize of child and time-out events) `eventPool.back` is called at most once per event,
+    exactly once iff the event is done, never for an event still in flight; and a done event has
+    seen exactly the finalize calls of its path (hold: `finalize(…, false, false)` then the commit). -/
+theorem finalize_once (cap : Nat) (kinds : List Life.Kind) (s : Life.St) (i : Nat) (e : Life.Ev)
+    (h : TS.Reachable Life.step? (Life.init cap kinds) s) (hi : s.evs[i]? = some e) :
+    e.backs ≤ 1 ∧ (e.pc = .done → e.backs = 1 ∧ e.fins = Life.expectedFins e.kind) ∧
+    (e.pc ≠ .done → e.backs = 0) := by
+  have hok := (Life.inv_reachable cap kinds s h).ev i e hi
+  revert hok
+  simp only [Life.EvOK]
+  cases e.pc <;> simp <;> intros <;> simp_all
+
+/-- **idle_zero** and the capacity bound of the pipeline: the events out of the pool are exactly
+    the events between `get` and their `back`, never more than the capacity; when no event is in
+    flight (every event not yet read or done) the count is 0. -/
+theorem idle_zero (cap : Nat) (kinds : List Life.Kind) (s : Life.St)
+    (h : TS.Reachable Life.step? (Life.init cap kinds) s) :
+    s.inUse ≤ s.cap ∧ s.inUse = s.evs.countP Life.live ∧
+    ((∀ (i : Nat) (e : Life.Ev), s.evs[i]? = some e → e.pc = .fresh ∨ e.pc = .done) → s.inUse = 0) := by
+  have inv := Life.inv_reachable cap kinds s h
+  refine ⟨inv.capb, inv.ctr, ?_⟩
+  intro hall
+  rw [inv.ctr, List.countP_eq_zero]
+  intro e he
+  obtain ⟨i, hlt, rfl⟩ := List.getElem_of_mem he
+  have := hall i s.evs[i] (by simp [hlt])
+  rcases this with h | h <;> simp [Life.live, h]
+
+/-- non-vacuity: capacity 1, a held event that is propagated and committed, then a refused one -/
+example : ∃ s, TS.run Life.step? (Life.init 1 [.hold, .refused])
+      (Life.script 0 .hold ++ Life.script 1 .refused) = some s ∧ s.inUse = 0 ∧
+      s.evs.map (·.fins) = [[0, 3], []] ∧ s.evs.map (·.backs) = [1, 1] := ⟨_, rfl, by decide⟩
 
 end FileD.PropsC05
